@@ -266,11 +266,16 @@ pub fn run_par(a: &Args) {
     let long_arcs = a.extra.iter().any(|x| x == "--long-arcs");
     let focus_cache = a.extra.iter().any(|x| x == "--focus-cache");
     let focus_dom = a.extra.iter().any(|x| x == "--focus-dominance");
+    // `--focus-dedup`: duplicate-free fringe, no cache, heavily re-convergent instances at widths 2..3: the same (state, depth)
+    // is pushed again and again with other bounds and path lengths (where the heap order of NoDupFringe matters for the
+    // parallel solver's "top bound <= incumbent => drop the fringe")
+    let focus_dedup = a.extra.iter().any(|x| x == "--focus-dedup");
     let mut rng = Rng::new(a.seed);
-    let ninst = if a.thorough { 12000 } else { 1000 };
+    let ninst = if focus_dedup { if a.thorough { 24000 } else { 3000 } } else if a.thorough { 12000 } else { 1000 };
     let mut bad = 0;
     for _ in 0..ninst {
-        let fam = crate::eng_seq::pick_fam(&mut rng, long_arcs, focus_cache, focus_dom);
+        let fam = if focus_dedup { if rng.chance(1, 6) { Fam::Knap(Knap::random(&mut rng)) } else { let mut t = TableDP::random(&mut rng, false); if rng.chance(1, 2) { t.rub_mode = 0; } Fam::Table(t) } }
+                  else { crate::eng_seq::pick_fam(&mut rng, long_arcs, focus_cache, focus_dom) };
         // cutoff runs: some instances whose costs are all <= 0 with a zero-cost route (optimum 0, bounds meeting at 0:
         // where a gap computed as 0/0 would show)
         let fam = if cutoff && rng.chance(1, 5) { if let Fam::Table(mut t) = fam { for e in t.tab.iter_mut() { if let Some((_, c)) = e { if *c > 0 { *c = 0; } } } t.init_val = 0; t.compute_hstar(); Fam::Table(t) } else { fam } } else { fam };
@@ -278,6 +283,7 @@ pub fn run_par(a: &Args) {
         let mut s = random_cfg(&fam, &mut rng, &kinds);
         if focus_cache { s.cache = true; s.w = WE::F(*rng.pick(&[1usize, 1, 2])); if rng.chance(3, 4) { s.nodup = false; } }
         if focus_dom { s.w = WE::F(*rng.pick(&[1usize, 2, 2])); }
+        if focus_dedup { s.nodup = true; s.cache = false; s.kind = *rng.pick(&[0usize, 1, 1, 1, 2]); s.w = WE::F(*rng.pick(&[1usize, 2, 2, 2, 3])); }
         if rng.chance(1, 6) { if let Some(p) = random_solution(&fam, &mut rng) { s.primal = Some(p); } }
         // cutoffs: early ones (the first compilations) and late ones (several workers hold nodes, the incumbent has moved
         // since they read it: the abort bound must still cover the optimum)
